@@ -448,6 +448,12 @@ class SymArr:
         # boolean mask over a leading symbolic axis
         if isinstance(idx, SymArr) and idx.ndim == 1 and isinstance(idx.axes[0], Dim) and _is_bool_arr(idx):
             return self._compress(idx)
+        if isinstance(idx, SymArr) and idx.ndim > 1 and idx.inner.ndim == 0 and tuple(idx.axes) == tuple(self.axes[:idx.ndim]) \
+                and _is_bool_arr(idx):
+            return self._compress(idx)      # element-wise mask over several symbolic axes
+        if isinstance(idx, SymArr) and _is_bool_arr(idx) and tuple(idx.axes) == tuple(self.axes) \
+                and idx.inner.shape == self.inner.shape:
+            return MaskedFull(self.axes, self.inner.copy(), idx.inner.copy())   # a[mask], mask of a's full shape
         if isinstance(idx, tuple) and idx and isinstance(idx[0], SymArr) and _is_bool_arr(idx[0]) and \
                 all(isinstance(i, slice) and i == slice(None) for i in idx[1:]):
             return self._compress(idx[0])
@@ -539,8 +545,7 @@ class SymArr:
         return SymArr(new_axes, inner, self.guard)
 
     def _compress(self, mask):
-        d = mask.axes[0]
-        if self.axes[0] is not d:
+        if tuple(self.axes[:mask.ndim]) != tuple(mask.axes):
             raise paths.OutOfReach("boolean mask over a different axis")
         g = to_bool(mask.inner[()])
         if self.guard is not None:
@@ -599,8 +604,23 @@ class SymArr:
             target[...] = np.broadcast_to(varr, target.shape)
 
     def _scatter(self, mask, value):
-        d = mask.axes[0]
-        if self.axes[0] is not d:
+        if tuple(mask.axes) == tuple(self.axes) and mask.inner.shape == self.inner.shape and mask.inner.ndim > 0:
+            # full-shape mask: element by element
+            if isinstance(value, MaskedFull):
+                if value.mask.shape != mask.inner.shape or any(to_bool(a) != to_bool(b) for a, b in
+                                                               zip(value.mask.reshape(-1), mask.inner.reshape(-1))):
+                    raise paths.OutOfReach("scatter of values compressed with a different mask")
+                vin = value.inner
+            elif isinstance(value, (SymArr, np.ndarray)):
+                raise paths.OutOfReach("full-shape mask store of an array value")
+            else:
+                vin = np.broadcast_to(_obj(value), self.inner.shape)
+            out = np.empty(self.inner.shape, dtype=object)
+            for idx in np.ndindex(self.inner.shape):
+                out[idx] = wrap(sp.Piecewise((_sx(vin[idx]), to_bool(mask.inner[idx])), (_sx(self.inner[idx]), True)))
+            self.inner[...] = out
+            return
+        if tuple(self.axes[:mask.ndim]) != tuple(mask.axes) or mask.inner.ndim != 0:
             raise paths.OutOfReach("boolean mask store over a different axis")
         m = to_bool(mask.inner[()])
         if isinstance(value, SymArr):
@@ -853,6 +873,13 @@ def gather(base, idx):
         for j in (np.ndindex(base.inner.shape) if base.inner.ndim else [()]):
             out[i + j] = wrap(fast_subs(_sx(base.inner[j]), d.k, ie))
     return SymArr(idx.axes + rest_axes, out, idx.guard)
+
+
+class MaskedFull:
+    """a[mask] for a boolean mask of a's full shape: only usable as the value of a store through the same mask"""
+
+    def __init__(self, axes, inner, mask):
+        self.axes, self.inner, self.mask = axes, inner, mask
 
 
 # ------------------------------------------------------------------------ sequences
